@@ -174,6 +174,8 @@ var vC15Macros = []struct{ def, call, byHand, prelude string }{
 	{`(defmac m [c] ^(cond ~c (break) (t 9002)))`, `(m (> (+ i y) 9001))`, `(cond (> (+ i y) 9001) (break) (t 9002))`, `(def i 50) (def y 60)`},
 	{`(defmac m [c] ^(cond ~c (continue) (t (+ i y))))`, `(m (== (+ i y) 9001))`, `(cond (== (+ i y) 9001) (continue) (t (+ i y)))`, `(def i 50) (def y 60)`},
 	{`(defmac m [& body] ^(let [w 1] ~@body))`, `(m (cond (> i 9001) (break) (t i)))`, `(let [w 1] (cond (> i 9001) (break) (t i)))`, `(def i 50) (def y 60)`},
+	{`(defmac m [& body] ^(~@body))`, `(m)`, `()`, ``},
+	{`(defmac m [] ^())`, `(m)`, `()`, ``},
 	{`(defmac defsucc [name n] ^(defmac ~name [] ^(+ ~n 1))) (defsucc m 9001)`, `(m)`, `(+ 9001 1)`, ``},
 	{`(defmac m [n acc] ^(g ~n ~acc))`, `(m (- n 1) (+ acc (t n)))`, `(g (- n 1) (+ acc (t n)))`, `(defn g [n acc] acc) (def n 1) (def acc 5)`},
 }
@@ -188,6 +190,11 @@ var vC15Sites = []string{
 	`(def i 100) (def r []) (for [(def i 0) (< i 4) (set i (+ i 1))] (let [y (* i 2)] CALL (set r (append r y)))) (list i r)`,
 	`(def i 100) (def r []) (for [(def i 0) (< i 4) (set i (+ i 1))] (newScope (def y (* i 3)) CALL (set r (append r y)))) (list i r)`,
 	`(def i 100) (def r []) (for [(def k 0) (< k 2) (set k (+ k 1))] (for [(def i 0) (< i 3) (set i (+ i 1))] (let [y k] CALL (set r (append r (+ (* 10 k) i)))))) (list i r)`,
+	// the value of the call is consumed: right side of def and set, let binding, cond branch, last form of a function used by a caller
+	`(def r CALL) (list r 1)`,
+	`(let [r CALL] (list r 2))`,
+	`(defn h [] CALL) (list 1 (h) 2)`,
+	`(cond true CALL 5)`,
 	// the expansion is a self tail call inside a let inside the function
 	`(defn g [n acc] (let [y 1] (cond (<= n 0) acc (letseq [z y] CALL)))) (g 3 0)`,
 }
